@@ -41,12 +41,19 @@ from .core import OutsideSubset, REPO
 # --------------------------------------------------------------------------
 
 
+_nan_counter = [0]
+
+
 def _real_of_float(x):
     if isinstance(x, bool):
         return z3.RealVal(int(x))
     if isinstance(x, int):
         return z3.RealVal(x)
-    if x != x or x in (float("inf"), float("-inf")):
+    if x != x:
+        # NaN used as an "uninitialised" marker: an arbitrary real
+        _nan_counter[0] += 1
+        return z3.Real("nan!%d" % _nan_counter[0])
+    if x in (float("inf"), float("-inf")):
         raise OutsideSubset("non-finite float %r in symbolic arithmetic" % (x,))
     fr = Fraction(x)
     return z3.Q(fr.numerator, fr.denominator) if fr.denominator != 1 else z3.RealVal(fr.numerator)
@@ -174,6 +181,10 @@ def _coerce(a, b):
 
 
 POW_UF = z3.Function("pow", z3.RealSort(), z3.RealSort(), z3.RealSort())
+RMUL = z3.Function("rmul", z3.RealSort(), z3.RealSort(), z3.RealSort())
+ABSTRACT = {"mul": False}
+PYDIV = z3.Function("pydiv", z3.IntSort(), z3.IntSort(), z3.IntSort())
+PYMOD = z3.Function("pymod", z3.IntSort(), z3.IntSort(), z3.IntSort())
 
 
 def arith(op, a, b):
@@ -185,11 +196,20 @@ def arith(op, a, b):
     if op == "-":
         return Sym(ea - eb)
     if op == "*":
+        if ABSTRACT["mul"] and z3.is_real(ea) and z3.is_real(eb) \
+                and not z3.is_rational_value(z3.simplify(ea)) and not z3.is_rational_value(z3.simplify(eb)):
+            # product of two symbolic reals as an uninterpreted function: keeps a VC in
+            # EUF + linear arithmetic when only congruence of the products matters
+            return Sym(RMUL(ea, eb))
         return Sym(ea * eb)
     if op == "/":
         if z3.is_int(ea):
             ea, eb = z3.ToReal(ea), z3.ToReal(eb)
         return Sym(ea / eb)
+    if op in ("//", "%") and z3.is_int(ea) and z3.is_int(eb) and not z3.is_int_value(z3.simplify(eb)):
+        # division/modulo by a symbolic divisor: uninterpreted (the facts the proofs need
+        # about them are supplied as proved lemma instances; keeps the VCs linear)
+        return Sym((PYDIV if op == "//" else PYMOD)(ea, eb))
     if op == "//":
         if z3.is_int(ea):
             # Python floor division; z3 div is Euclidean: equal for b > 0,
@@ -2100,6 +2120,8 @@ class Interp(object):
             if default is not MISSING:
                 return default
             raise IRaise(AttributeError("%r has no attribute %s" % (obj, name)))
+        if isinstance(obj, pymodels.NanCheck) and name in ("any", "all"):
+            return pymodels.LibMethod(lambda it, a, k, f=obj.flag: Sym(f), "isnan.any")
         if isinstance(obj, (SArr, SList, SDict, Sym)) or (isinstance(obj, (str, tuple, float, int)) and False):
             return pymodels.method(self, obj, name, default)
         try:
@@ -2221,8 +2243,10 @@ class RangeInvariant(object):
         frame.vars[v] = Sym(k)
         try:
             it.exec_block(s.body, frame)
-        except (_Break, _Continue, _Return):
-            raise OutsideSubset("break/continue/return inside an invariant loop")
+        except _Continue:
+            pass                       # `continue` ends this iteration: the invariant must hold
+        except (_Break, _Return):
+            raise OutsideSubset("break/return inside an invariant loop")
         it.discharge_sides(reg, self.name + ".body", function=self.function, replay=self.replay)
         reg.prove(self.name + ".inv.preserved", it.pc + self.lemmas + [k + step < hie],
                   self.inv(it, frame, k + step), function=self.function, replay=self.replay)
@@ -2230,6 +2254,12 @@ class RangeInvariant(object):
         exit_fact_pc = list(it.pc[snap[2]:])
         last = z3.And(*exit_fact_pc) if exit_fact_pc else z3.BoolVal(True)
         contents_after = [b.get for b in bufs]
+        # scalar locals assigned in the body: their values after the last iteration
+        assigned = set()
+        for node in ast.walk(ast.Module(body=s.body, type_ignores=[])):
+            if isinstance(node, ast.Name) and isinstance(node.ctx, ast.Store):
+                assigned.add(node.id)
+        after_vars = {nm: frame.vars[nm] for nm in assigned if nm in frame.vars and nm != v}
         del it.frames[nframes:]
         it.restore(snap)
         # 3. exit state: entry state if no iteration, else the state after the
@@ -2239,6 +2269,16 @@ class RangeInvariant(object):
             g_before = b.get
             b.get = (lambda j, ga=g_after, gb=g_before: z3.If(entered, ga(j), gb(j)))
         it.pc.append(z3.Implies(entered, z3.And(last, k + step >= hie)))
+        for nm, av in after_vars.items():
+            bv = frame.vars.get(nm, _UNDEF)
+            if av is bv:
+                continue
+            if is_scalar(av) and (bv is _UNDEF or is_scalar(bv)):
+                frame.vars[nm] = av if bv is _UNDEF else ite(entered, av, bv)
+            elif isinstance(av, SArr) and isinstance(bv, SArr) and av.buf is bv.buf:
+                frame.vars[nm] = bv
+            else:
+                frame.vars[nm] = _Poison(None)
         frame.vars[v] = Sym(k)
         self.exit_k = k
 
